@@ -161,6 +161,14 @@ def make_env(*values) -> dict:
             "dv": default_version(), "offchk": _OFFCHK[0]}
 
 
+def make_env_light(*values) -> dict:
+    """env for requests that only evaluate a schema: the pattern table, no numpy table"""
+    ss: set = set()
+    for v in values:
+        strings_of(v, ss)
+    return {"vok": sorted(s for s in ss if "\x00" not in s and pattern_ok(s)), "np": [], "dv": ""}
+
+
 _OFFCHK = [False]
 
 
